@@ -23,7 +23,7 @@ def run(rep, tier, seed):
     rep.negative_cfgs.append("MC_Grammar_noescape.cfg (literal mappings with path-like keys serialised without escaping)")
     rng = random.Random(seed + 11)
     events, recipes = [], {}
-    for _ in range(2500 if tier == "quick" else 80000):
+    for _ in range(6000 if tier == "quick" else 80000):
         doc = gen.document(rng, depth=2, strish=0.8)
         t = rtdrv.c11_tree(rng, rng.choice([0, 0, 1, 2, 3]), doc)
         ks = rtdrv.kinds_of(t)
